@@ -44,6 +44,10 @@ class Roles:
         key = self.vars.key_of_operand(op) if op["k"] != "const" else None
         if key in self.local_roles:
             return self.local_roles[key]
+        if self.local_roles and op["k"] != "const":
+            rk = self.vars.root_key(op)
+            if rk in self.local_roles:
+                return self.local_roles[rk]
         return self.of_origin(self.org.of_operand(op, bi, idx))
 
     def of_origin(self, o):
@@ -118,6 +122,13 @@ class Roles:
             if n == S + "push_code":
                 return "PUSHCODE"
             return "%s(%s)" % (short(n), ",".join(self.of_origin(x) for x in a))
+        if k == "ok":
+            inner = self.of_origin(o[1])
+            if inner == "CALCRES":
+                return "AREATYPE"
+            if inner == "POPRES":
+                return "POPPED"
+            return "OK(%s)" % inner
         if k == "try":
             inner = self.of_origin(o[1])
             if inner == "POPRES":
@@ -132,8 +143,10 @@ class Roles:
             return "COPY(%s)" % inner
         if k == "some":
             inner = self.of_origin(o[1])
-            if inner.startswith("NEXT("):
+            if inner in ("NEXT(VEC)",) or inner.startswith("NEXT(Range") or inner.startswith("NEXT(REV(CHARS("):
                 return "ELEM"
+            if inner.startswith("NEXT("):
+                return "ELEM<%s>" % inner[5:-1]
             if inner.startswith("POINT("):
                 return "LABEL"
             if inner == "LATEST":
